@@ -181,7 +181,7 @@ pub fn strategy(cfg: GenCfg, max_len: usize) -> impl Strategy<Value = Case> {
 pub fn run_check(ctx: &mut Ctx) {
     ctx.rule = "programs built from a u32 entropy vector (instructions over all legal forms, data, text, labels with/without blocks, nested scopes, constants from label differences, variables, `* = * + k`, .align, 1-3 segments with/without pc, segments.x.end starts, super/dotted paths, shadowed names, zero-page-boundary origins); oracle: reference layout walk that reads only ambiguous instruction sizes from the image and recomputes every byte, label and operand; then symbol table and VICE text vs model. non-trivial = assembled and (>=3 passes with a forward reference, or >=3 forward references); distinct by entropy hash".into();
     ctx.assumptions.push("model/layout.rs, model/eval.rs, model/isa.rs (reference models, no mos code)".into());
-    let n = ctx.tier.pick(4000, 120_000);
+    let n = ctx.tier.pick(10_000, 300_000);
     ctx.campaign("clean-domain", n, strategy(GenCfg::c02(), 400), prop, to_json);
 
     // feature campaign: forward reference to a definition that shadows an outer one (recorded finding)
@@ -189,7 +189,7 @@ pub fn run_check(ctx: &mut Ctx) {
     cfg.shadow_forward_ref = true;
     // the stale binding only survives when no other forward reference forces a further pass: small programs
     cfg.max_stmts = 10;
-    let n2 = ctx.tier.pick(1500, 20_000);
+    let n2 = ctx.tier.pick(3000, 40_000);
     ctx.campaign("feature:forward_ref_to_shadowing_definition", n2, strategy(cfg, 300), prop, to_json);
 
     let asm = ctx.label_count("assembled");
